@@ -78,8 +78,12 @@ class Scheduler:
         def fsync(fd): sch.point("fsync"); return os.fsync(fd)
         def link(a, b): sch.point("link"); return os.link(a, b)
         def unlink(p): sch.point("unlink"); return os.unlink(p)
-        def my_open(path, mode="r"):
-            sch.point("open"); return ReadFile(builtins.open(path, mode))
+        def my_open(path, mode="r", *a, **k):
+            sch.point("open")
+            if any(c in mode for c in "wax+"):        # a routine that writes through the builtin open: same buffered-writer discipline as the temp file
+                flags = os.O_WRONLY | os.O_CREAT | (os.O_TRUNC if "w" in mode else 0) | (os.O_APPEND if "a" in mode else 0) | (os.O_EXCL if "x" in mode else 0)
+                return TempFile(os.open(path, flags, 0o600))
+            return ReadFile(builtins.open(path, mode))
         def randbits(k): sch.point("randbits"); return sch.cand[sch.tl.pid]
         self.saved = {k: getattr(S, k, None) for k in ("os", "open", "secrets", "tempfile", "user_config_dir", "sys")}
         S.sys = types.SimpleNamespace(stderr=io.StringIO(), float_info=sys.float_info)
